@@ -51,11 +51,13 @@ type world struct {
 
 	// the pruned node (pruned.go): every node shares a pruner.RetentionFloor with its state backend the
 	// way node.go wires it; prunedBelow is how far pruner.PruneUpto ran (0: never)
-	floors      []*pruner.RetentionFloor
-	floorSeeded bool         // the floors were seeded (and are re-seeded after every prune)
-	prunedBelow int          // blocks below this number are pruned
-	maxHeight   int          // the greatest height the chain ever had (how far the record probes look)
-	noCommit    map[int]bool // fault family: commitments records deleted behind the node's back
+	floors       []*pruner.RetentionFloor
+	floorSeeded  bool         // the floors were seeded (and are re-seeded after every prune)
+	prunedBelow  int          // blocks below this number are pruned
+	pruneCalls   int          // number of effective PruneUpto calls so far (the batch size alternates)
+	pruneRotated bool         // the last prune rotated its batch after every block
+	maxHeight    int          // the greatest height the chain ever had (how far the record probes look)
+	noCommit     map[int]bool // fault family: commitments records deleted behind the node's back
 }
 
 func newWorld(r *lib.RNG, srcNewState bool, opt lib.GenOptions) (*world, error) {
